@@ -5,7 +5,7 @@ COMMON_STUB = ["thread scheduling (baton scheduler over real threads)", "clock (
 CHECKS = {
     "C10": {
         "level": "exploration",
-        "rule": ("each run = one seeded plan (capacity 1-4, 1-4 producers, 1-4 consumers, blocking/timed/try operations, close at a drawn instant) "
+        "rule": ("each run = one seeded plan (capacity 1-4, 1-4 producers, 1-4 consumers, blocking/timed/try operations, close at a drawn instant; in two thirds of the runs followed by a hand-off phase on a second queue: 2-4 waiters parked in untimed or 10 s timed dequeue()/queue(), 1..waiters puts or takes of drawn kinds from 1-2 actor threads, then a 100 ms simulated quiet gap with stalls off after which no waiter may be blocked next to an item / free slot) "
                  "executed under one seeded schedule (sticky/random/PCT/round-robin, optional stalls and spurious wake-ups); ring-buffer runs = one producer and one consumer moving 20-420 items through capacity 1-8 with single/move/batch/peek operations and a quiesced resize, with a scheduling point before every atomic operation in the TSan flavour; a run is non-trivial when it "
                  "context-switched at least once; distinct = distinct (harness, interleaving hash over (from-thread,to-thread,sync-point kind) sequence, abstract state hash)"),
         "real": ["iora::core::BlockingQueue, RingBuffer<T,2/4/8>, DynamicRingBuffer (unmodified headers)", "libstdc++ std::mutex/condition_variable/thread/atomic",
@@ -159,6 +159,7 @@ CHECKS = {
         "rule": ("each run = a UDP transport with 1-2 listeners, 1-6 raw peers at distinct addresses sending keyed datagrams of 15..65507 bytes with drawn gaps, 1-4 actor threads "
                  "issuing connect, connectViaListener (to peers with or without a session), send (8..65507 bytes), bursts, close, sleeps; idle expiry in a quarter of the runs; "
                  "network exact or lossy (drop/dup/reorder); egress budget of 2 datagrams in a third of the runs so that sendto() returns EAGAIN and the engine must queue; "
+                 "in a fifth of the runs one peer floods a listener with 65-300 back-to-back small datagrams while the data handler holds the I/O thread for 0/3/30 ms and is silent afterwards; "
                  "kernel-side record of every datagram; non-trivial = at least one context switch; distinct = distinct (interleaving hash, abstract state hash)"),
         "real": ["iora::network::Transport + UdpEngine", "EventBatchProcessor"],
         "stub": COMMON_STUB + ["kernel UDP sockets, epoll, eventfd, timerfd (simrt/net.cpp) incl. loss, duplication, reordering, EAGAIN", "remote peers (scripted)"],
